@@ -21,7 +21,7 @@ population and to the clone, and all of these — with the tracer, the set of in
 and the in-memory stores — are new objects (region `c.reg = h.length` did not exist in `h`). -/
 theorem C13_clone_owns_itself (h : Heap) (s : Id) (tr dbg : Bool) (h' : Heap) (c : Id)
     (hcl : Closed s.reg h) (hc : cloneSim s tr dbg h = (.ok c, h')) :
-    ∃ so, h'.get? c = some (.sim so) ∧ so.trace = tr ∧ c.reg = h.length
+    ∃ so, h'.get? c = some (.sim so) ∧ so.trace = tr ∧ so.debug = dbg ∧ c.reg = h.length
       ∧ so.tracer.reg = c.reg ∧ so.inval.reg = c.reg ∧ alGet so.pops 0 = some so.persons
       ∧ ∀ e ∈ so.pops, ∃ po, h'.get? e.2 = some (.pop po) ∧ e.2.reg = c.reg ∧ po.sim = c
           ∧ (e.1 ≠ 0 → ∀ m, po.members = some m → m = so.persons)
@@ -29,7 +29,7 @@ theorem C13_clone_owns_itself (h : Heap) (s : Id) (tr dbg : Bool) (h' : Heap) (c
               ∧ ho.pop = e.2 ∧ ho.sim = c ∧ ho.mem.reg = c.reg := by
   have sc := cloneSim_spec hcl hc
   obtain ⟨so, persons', groups', trc, inv, a1, a2, a3, a4, a5, a6, a7, a8, _⟩ := sc.ex
-  refine ⟨_, a2, rfl, sc.reg, a3, a4, by simp [alGet], ?_⟩
+  refine ⟨_, a2, rfl, rfl, sc.reg, a3, a4, by simp [alGet], ?_⟩
   have holders : ∀ {p0 : Id} {e e' : Nat × Id}, PopPair c.reg c p0 h h' e e' →
       ∃ po, h'.get? e'.2 = some (.pop po) ∧ e'.2.reg = c.reg ∧ po.sim = c
         ∧ (∀ m, po.members = some m → m = p0)
@@ -58,8 +58,9 @@ example : ∃ c h', cloneSim exS false false exH = (.ok c, h') ∧ Closed exS.re
 
 /-- Immediately after cloning: the original is untouched (every region that existed is as it was), and
 the clone holds the same values (`get_array` of every variable and period), the same known periods and
-the same entity structure (counts, ids, memberships, the role of every member, which variables have a
-holder); every role-dependent read — `nb_persons(role)` of a group population, `persons.has_role(role)`,
+the same entity structure (counts, ids, memberships, the role and the position of every member, the
+ordering map, which variables have a holder) and the same configuration (`opt_out_cache`,
+`max_spiral_loops`, `memory_config`); every role-dependent read — `nb_persons(role)` of a group population, `persons.has_role(role)`,
 which goes back through the person population's own simulation — gives on the clone what it gives on the
 original. -/
 theorem C13_clone_equal_initially (sys : Sys) (h : Heap) (s : Id) (tr dbg : Bool) (h' : Heap) (c : Id)
@@ -69,7 +70,8 @@ theorem C13_clone_equal_initially (sys : Sys) (h : Heap) (s : Id) (tr dbg : Bool
     ∧ (∀ v, (readKnown sys c v h').1 = (readKnown sys s v h).1)
     ∧ (∀ ent, (readStructure c ent h').1 = (readStructure s ent h).1)
     ∧ (∀ ent role, (roleCount c ent role h').1 = (roleCount s ent role h).1)
-    ∧ (∀ ent role, (personsHaveRole c ent role h').1 = (personsHaveRole s ent role h).1) := by
+    ∧ (∀ ent role, (personsHaveRole c ent role h').1 = (personsHaveRole s ent role h).1)
+    ∧ (readConfig c h').1 = (readConfig s h).1 := by
   have sc := cloneSim_spec hwf.closed hc
   have hreg : h[s.reg]? = h'[s.reg]? := (sc.others s.reg (Nat.ne_of_lt sc.lt)).symm
   obtain ⟨so, so', hs, hs', look⟩ := sc.popLookup hwf.listed
@@ -79,7 +81,7 @@ theorem C13_clone_equal_initially (sys : Sys) (h : Heap) (s : Id) (tr dbg : Bool
       PopPair c.reg c p0 h h' (k, pid) (k, pid') →
       ∃ po po', h.get? pid = some (.pop po) ∧ h'.get? pid' = some (.pop po')
         ∧ po'.count = po.count ∧ po'.ids = po.ids ∧ po'.membersEntityId = po.membersEntityId
-        ∧ po'.membersRole = po.membersRole ∧ po'.sim = c
+        ∧ po'.membersRole = po.membersRole ∧ po'.membersPosition = po.membersPosition ∧ po'.sim = c
         ∧ po'.holders.map (fun e => e.1) = po.holders.map (fun e => e.1)
         ∧ ((alGet po.holders v = none ∧ alGet po'.holders v = none)
           ∨ ∃ hid hid' ho ho', alGet po.holders v = some hid ∧ alGet po'.holders v = some hid'
@@ -90,13 +92,13 @@ theorem C13_clone_equal_initially (sys : Sys) (h : Heap) (s : Id) (tr dbg : Bool
     obtain ⟨_, po, hs5, members, b1, b2, b3, b4, b5, b6⟩ := hp
     have hpid : pid.reg = s.reg := hin.2.1 _ (alGet_mem hk)
     have hpo : InReg s.reg (.pop po) := hwf.closed.get hpid b1
-    refine ⟨po, _, b1, b5, rfl, rfl, rfl, rfl, rfl, b6.keys (fun e e' hp => hp.1), ?_⟩
+    refine ⟨po, _, b1, b5, rfl, rfl, rfl, rfl, rfl, rfl, b6.keys (fun e e' hp => hp.1), ?_⟩
     rcases alGet_rel₂ b6 (fun e e' hp => hp.1) v with hn | ⟨hid, hid', g1, g2, g3⟩
     · exact Or.inl hn
     · obtain ⟨ho, ho', d1, d2, d3, d4⟩ := holderFind_pair g3 hwf.closed (hpo.2.1 _ (alGet_mem g1)) hreg
       exact Or.inr ⟨hid, hid', ho, ho', g1, g2, d1, d2, d3, d4⟩
   refine ⟨fun r hr => sc.others r (Nat.ne_of_lt hr), fun v p => ?_, fun v => ?_, fun ent => ?_, fun ent role => ?_,
-    fun ent role => ?_⟩
+    fun ent role => ?_, ?_⟩
   · unfold readValue varDecl
     cases sys[v]? with
     | none => rfl
@@ -107,7 +109,7 @@ theorem C13_clone_equal_initially (sys : Sys) (h : Heap) (s : Id) (tr dbg : Bool
       · rw [n1, n2]; rfl
       · rw [l1, l2]
         simp only [ofOption_some, pure_bind']
-        obtain ⟨po, po', q1, q2, _, _, _, _, _, _, q7⟩ := holder v l1 pp
+        obtain ⟨po, po', q1, q2, _, _, _, _, _, _, _, q7⟩ := holder v l1 pp
         rw [bind_of_ok (rdPop_eq q2), bind_of_ok (rdPop_eq q1)]
         rcases q7 with ⟨m1, m2⟩ | ⟨hid, hid', ho, ho', m1, m2, m3, m4, m5, _⟩
         · rw [m1, m2]; rfl
@@ -125,7 +127,7 @@ theorem C13_clone_equal_initially (sys : Sys) (h : Heap) (s : Id) (tr dbg : Bool
       · rw [n1, n2]; rfl
       · rw [l1, l2]
         simp only [ofOption_some, pure_bind']
-        obtain ⟨po, po', q1, q2, _, _, _, _, _, _, q7⟩ := holder v l1 pp
+        obtain ⟨po, po', q1, q2, _, _, _, _, _, _, _, q7⟩ := holder v l1 pp
         rw [bind_of_ok (rdPop_eq q2), bind_of_ok (rdPop_eq q1)]
         rcases q7 with ⟨m1, m2⟩ | ⟨hid, hid', ho, ho', m1, m2, m3, m4, _, m6⟩
         · rw [m1, m2]; rfl
@@ -139,16 +141,16 @@ theorem C13_clone_equal_initially (sys : Sys) (h : Heap) (s : Id) (tr dbg : Bool
     · rw [n1, n2]; rfl
     · rw [l1, l2]
       simp only [ofOption_some, pure_bind']
-      obtain ⟨po, po', q1, q2, q3, q4, q5, qr, _, q6, _⟩ := holder 0 l1 pp
+      obtain ⟨po, po', q1, q2, q3, q4, q5, qr, qp, _, q6, _⟩ := holder 0 l1 pp
       rw [bind_of_ok (rdPop_eq q2), bind_of_ok (rdPop_eq q1)]
-      simp only [pure_apply, PopObj.roles, q3, q4, q5, q6, qr]
+      simp only [pure_apply, PopObj.roles, PopObj.positions, PopObj.orderedMap, q3, q4, q5, q6, qr, qp]
   · unfold roleCount
     rw [bind_of_ok (rdSim_eq hs'), bind_of_ok (rdSim_eq hs)]
     rcases look ent with ⟨n1, n2⟩ | ⟨pid, pid', p0, l1, l2, pp⟩
     · rw [n1, n2]; rfl
     · rw [l1, l2]
       simp only [ofOption_some, pure_bind']
-      obtain ⟨po, po', q1, q2, q3, _, q5, qr, _, _, _⟩ := holder 0 l1 pp
+      obtain ⟨po, po', q1, q2, q3, _, q5, qr, _, _, _, _⟩ := holder 0 l1 pp
       rw [bind_of_ok (rdPop_eq q2), bind_of_ok (rdPop_eq q1)]
       simp only [pure_apply, PopObj.roles, q3, q5, qr]
   · -- the persons of the clone go back to the clone, the persons of the original to the original
@@ -165,7 +167,7 @@ theorem C13_clone_equal_initially (sys : Sys) (h : Heap) (s : Id) (tr dbg : Bool
         cases l2
         rfl
       subst e1 e2
-      obtain ⟨po, po', q1, q2, _, _, _, _, qs, _, _⟩ := holder 0 l1 pp
+      obtain ⟨po, po', q1, q2, _, _, _, _, _, qs, _, _⟩ := holder 0 l1 pp
       rw [bind_of_ok (rdPop_eq q2), bind_of_ok (rdPop_eq q1), qs]
       have hback : po.sim = s := hwf.bound so po hs q1
       rw [hback, bind_of_ok (rdSim_eq hs'), bind_of_ok (rdSim_eq hs)]
@@ -173,9 +175,14 @@ theorem C13_clone_equal_initially (sys : Sys) (h : Heap) (s : Id) (tr dbg : Bool
       · rw [n1, n2]; rfl
       · rw [m1, m2]
         simp only [ofOption_some, pure_bind']
-        obtain ⟨go, go', r1, r2, _, _, r5, rr, _, _, _⟩ := holder 0 m1 gp
+        obtain ⟨go, go', r1, r2, _, _, r5, rr, _, _, _, _⟩ := holder 0 m1 gp
         rw [bind_of_ok (rdPop_eq r2), bind_of_ok (rdPop_eq r1)]
         simp only [pure_apply, PopObj.roles, r5, rr]
+
+  · obtain ⟨so2, persons', groups', trc, inv, a1, a2, _⟩ := sc.ex
+    unfold readConfig
+    rw [bind_of_ok (rdSim_eq a2), bind_of_ok (rdSim_eq a1)]
+    rfl
 
 example : WellFormed exH exS := WellFormed.ofB (by decide +kernel)
 example : (readValue exSys exC 1 exM1 exH').1 = .ok (some [5, 7, 9]) := by decide +kernel
